@@ -272,7 +272,9 @@ def _ptri(text):
 def tr_triples(ts, indent, variants=()):
     """ts: list of (src, role, tgt) with str fields; variants: alternative spellings of the same list."""
     t = {'kind': 'triples', 'ts': [ab.triple(x) for x in ts], 'indent': bool(indent)}
-    ok, r = guarded(penman.format_triples, ts, indent=indent)
+    # the argument is documented as an iterable of triples: every other list is handed over as a one-shot iterator
+    arg = iter(ts) if zlib.crc32(_json.dumps(ts).encode()) % 2 else ts
+    ok, r = guarded(penman.format_triples, arg, indent=indent)
     t['text'] = r if ok else 'EXC:' + excname(r)
     t['back'] = _ptri(t['text'])
     # the list that was returned belongs to the caller: after changing it in place, reading the same text again gives the triples again
